@@ -680,6 +680,52 @@ func hsFlights(c *Ctx, v *VFile) error {
 		}
 		v.N("gen_client_cert_key_index_"+srv.name, idx)
 	}
+
+	// ---- the search for null compression in the ClientHello, in every server's hello processing ------------------
+	// accepted shape: "for _, compression := range X.compressionMethods { if compression == compressionNone { ... } }" and no
+	// other use of compressionMethods (no len(...), no index) in the function; emitted: 1 per function
+	v.Raw("\n(* null compression is SEARCHED in the ClientHello's list (a loop over compressionMethods comparing with compressionNone,\n   no other use of the list) in: serverHandshakeStateGM.readClientHello, serverHandshakeState.readClientHello,\n   processClientHelloGM, processClientHello *)\n")
+	var searches []*big.Int
+	for _, fn := range []string{"serverHandshakeStateGM.readClientHello", "serverHandshakeState.readClientHello", "processClientHelloGM", "processClientHello"} {
+		f, ok := p.Funcs[fn]
+		if !ok {
+			return fmt.Errorf("function %s not found", fn)
+		}
+		isCM := func(e ast.Expr) bool {
+			s, ok := e.(*ast.SelectorExpr)
+			return ok && s.Sel.Name == "compressionMethods"
+		}
+		loops, uses := 0, 0
+		ast.Inspect(f, func(nd ast.Node) bool {
+			switch e := nd.(type) {
+			case *ast.RangeStmt:
+				if isCM(e.X) {
+					good := false
+					ast.Inspect(e.Body, func(m ast.Node) bool {
+						if b, ok := m.(*ast.BinaryExpr); ok && b.Op.String() == "==" && isIdent(b.Y, "compressionNone") {
+							if v, ok := e.Value.(*ast.Ident); ok && isIdent(b.X, v.Name) {
+								good = true
+							}
+						}
+						return true
+					})
+					if good {
+						loops++
+					}
+				}
+			case *ast.SelectorExpr:
+				if e.Sel.Name == "compressionMethods" {
+					uses++
+				}
+			}
+			return true
+		})
+		if loops != 1 || uses != 1 {
+			return fmt.Errorf("%s: null compression is not found by one loop over compressionMethods (loops %d, uses of the list %d)", fn, loops, uses)
+		}
+		searches = append(searches, big.NewInt(1))
+	}
+	v.NList("gen_null_compression_searched", searches)
 	return nil
 }
 
